@@ -31,7 +31,7 @@ fn build(ch: &mut Chooser, fmt: &str, s: &str) -> (Vec<u8>, String) {
     match fmt {
         "xlsx" => {
             let storage = ch.choose("xlsx.storage", 3); // shared, inline, formula string
-            let enc = ch.pick("xlsx.text-encoding", &[xlsx::TextEnc::Entities, xlsx::TextEnc::DecRefs, xlsx::TextEnc::HexRefs, xlsx::TextEnc::CData]);
+            let enc = ch.pick("xlsx.text-encoding", &[xlsx::TextEnc::Entities, xlsx::TextEnc::DecRefs, xlsx::TextEnc::HexRefs, xlsx::TextEnc::CData, xlsx::TextEnc::Mixed]);
             let shape = if storage < 2 { ch.choose("xlsx.runs", 6) } else { 0 };
             let text = |s: &str| -> xlsx::XText {
                 let runs = match shape {
@@ -92,11 +92,14 @@ fn build(ch: &mut Chooser, fmt: &str, s: &str) -> (Vec<u8>, String) {
                 0 => {
                     let extra = ch.choose("xls.rich-ext", 3);
                     let (runs, ext) = match extra { 0 => (0, vec![]), 1 => (2, vec![]), _ => (1, vec![1, 2, 3, 4]) };
-                    let table = vec![biff8::SstString { text: SENTINEL.into(), runs, ext: vec![] }, biff8::SstString { text: s.to_string(), runs, ext }];
+                    let mut table = vec![biff8::SstString { text: SENTINEL.into(), runs, ext: vec![] }, biff8::SstString { text: s.to_string(), runs, ext: ext.clone() }];
+                    // an empty item that still carries formatting runs / a phonetic block sits before the item under test
+                    let shifted = extra > 0 && ch.flag("xls.empty-item-with-runs-or-phonetic-block-before");
+                    if shifted { table.insert(1, biff8::SstString { text: String::new(), runs, ext }); }
                     // packing of the SST segments: forced to 16-bit through the chooser of the serialiser
                     let mut inner = Chooser::new(&if wide { vec![0, 1, 1] } else { vec![] });
                     book.sst_records = biff8::sst_records(&mut inner, &table, 2);
-                    biff8::BCell::LabelSst { r: 1, c: 1, xf: 0, isst: 1 }
+                    biff8::BCell::LabelSst { r: 1, c: 1, xf: 0, isst: if shifted { 2 } else { 1 } }
                 }
                 1 => biff8::BCell::Label { r: 1, c: 1, xf: 0, text: s.to_string(), wide },
                 _ => biff8::BCell::Formula { r: 1, c: 1, xf: 0, res: if s.is_empty() { biff8::FRes::EmptyStr } else { biff8::FRes::Str(s.to_string(), wide) }, rgce: vec![0x1E, 1, 0] },
